@@ -15,7 +15,8 @@ from .. import common
 RULE = (
     "table: every code point x 5 grammars (exhaustive); positions: 14 label "
     "positions x {all of 0..0x2FF, range edges +-1, surrogates, U+FFFF, "
-    "U+10000, U+10FFFF, random others} x 3 strict grammars x 2 loader routes; "
+    "U+10000, U+10FFFF, random others} x 3 strict grammars x 5 loader routes (the dialect's parser, "
+    "loads/load with grammar=, loads/load with the dialect's decoder alone); "
     "any-offset: a disallowed character inserted at offsets spread over the "
     "whole text before END of generated documents (every offset in the "
     "thorough tier); "
@@ -142,13 +143,19 @@ def check_error(rec, e, text, i, ts, feats, wit):
                       wit, "; ".join(problems))
 
 
+def dialect_decoder(pvl, dialect):
+    D = pvl.decoder
+    return {"PVL": D.PVLDecoder, "ODL": D.ODLDecoder, "PDS3": D.PDSLabelDecoder}[dialect]()
+
+
 def positions(rec, hb, pvl, cps, part, nparts, only=None):
     LexerError = pvl.exceptions.LexerError
     ParseError = pvl.exceptions.ParseError
     G = grammars(pvl)
     n = 0
     for dialect in ("PVL", "ODL", "PDS3"):
-        for route in ("strict-parser", "loads(grammar=G)"):
+        for route in ("strict-parser", "loads(grammar=G)", "loads(decoder=D)",
+                      "load(stream, grammar=G)", "load(stream, decoder=D)"):
             for name, tmpl, before_end in TEMPLATES:
                 if route == "strict-parser" and "missing-value" in name:
                     continue    # only the Omni parser tolerates missing values
@@ -158,6 +165,9 @@ def positions(rec, hb, pvl, cps, part, nparts, only=None):
                     n += 1
                     if n % nparts != part:
                         continue
+                    if route not in ("strict-parser", "loads(grammar=G)") and \
+                            (o * 7 + len(name)) % 4:
+                        continue    # the other ways in: every fourth code point
                     hb.beat()
                     ch = chr(o)
                     text, i, ts = render(tmpl, ch)
@@ -174,12 +184,23 @@ def positions(rec, hb, pvl, cps, part, nparts, only=None):
                         # the label; C15 has nothing to say about it
                         rec.count("not_judged_allowed_char_in_syntax")
                         continue
+                    rec.count(f"route[{route}]")
                     try:
                         with common.cpu_limit(30):
                             if route == "strict-parser":
                                 pvl.loads(text, parser=strict_parser(pvl, dialect))
-                            else:
+                            elif route == "loads(grammar=G)":
                                 pvl.loads(text, grammar=G[dialect])
+                            elif route == "loads(decoder=D)":
+                                # the dialect chosen through its decoder alone
+                                pvl.loads(text, decoder=dialect_decoder(pvl, dialect))
+                            elif route == "load(stream, grammar=G)":
+                                import io
+                                pvl.load(io.StringIO(text), grammar=G[dialect])
+                            else:
+                                import io
+                                pvl.load(io.StringIO(text),
+                                         decoder=dialect_decoder(pvl, dialect))
                         out = ("ok", None)
                     except common.CaseTimeout:
                         rec.inconc(f"CPU budget exceeded on {wit}")
@@ -416,7 +437,9 @@ def finish_kwargs(rec, tier):
         required_counters=("table_entries_checked", "disallowed_before_END",
                            "after_END", "allowed_ordinary",
                            "error_attribute_checks", "any_offset_cases",
-                           "default_codepoints_in_quotes"),
+                           "default_codepoints_in_quotes",
+                           "route[loads(decoder=D)]", "route[load(stream, grammar=G)]",
+                           "route[load(stream, decoder=D)]"),
         assumptions=["specification predicate: PVL/ISIS = ISO 8859-1 minus "
                      "0-8, 14-31, 127-159; ODL/PDS3 = code points < 128"],
     )
